@@ -305,3 +305,39 @@ def param_length_type(key_param, dt=DataType.A_UINT32, enc=None, hl=None):
                             length_key_ref=OdxLinkRef.from_id(key_param.odx_id))
     t._length_key = key_param
     return t
+
+
+from odxtools.dynamicendmarkerfield import DynamicEndmarkerField  # noqa: E402
+from odxtools.dynenddopref import DynEndDopRef  # noqa: E402
+
+
+def dynamic_endmarker_field(name, struct, end_dop, termination_value_raw):
+    ref = DynEndDopRef(ref_id=end_dop.odx_id.local_id, ref_docs=list(end_dop.odx_id.doc_fragments),
+                       termination_value_raw=termination_value_raw)
+    f = DynamicEndmarkerField(odx_id=OdxLinkId(f"id.{name}", FRAGS), oid=None, short_name=name, long_name=None,
+                              description=None, admin_data=None, sdgs=[],
+                              structure_ref=OdxLinkRef.from_id(struct.odx_id), structure_snref=None,
+                              env_data_desc_ref=None, env_data_desc_snref=None, is_visible_raw=None,
+                              dyn_end_dop_ref=ref)
+    f._structure = struct
+    f._env_data_desc = None
+    f._dyn_end_dop = end_dop
+    f._termination_value = end_dop.diag_coded_type.base_data_type.from_string(termination_value_raw)
+    return f
+
+
+from odxtools.environmentdata import EnvironmentData  # noqa: E402
+from odxtools.environmentdatadescription import EnvironmentDataDescription  # noqa: E402
+
+
+def env_data(name, params, dtc_values=(), all_value=None):
+    return EnvironmentData(odx_id=OdxLinkId(f"id.{name}", FRAGS), oid=None, short_name=name, long_name=None,
+                           description=None, admin_data=None, sdgs=[], parameters=NamedItemList(params),
+                           byte_size=None, all_value=all_value, dtc_values=list(dtc_values))
+
+
+def env_data_desc(name, dtc_param_name, env_datas):
+    return EnvironmentDataDescription(odx_id=OdxLinkId(f"id.{name}", FRAGS), oid=None, short_name=name,
+                                      long_name=None, description=None, admin_data=None, sdgs=[],
+                                      param_snref=dtc_param_name, param_snpathref=None,
+                                      env_datas=NamedItemList(env_datas), env_data_refs=[])
